@@ -165,6 +165,11 @@ def run(tier, seed):
         uu = np.asarray(symmetry.Umis(U1, U1, cs))[:, 1]
         if not np.all(np.isfinite(uu)) or not (uu.min() <= 1e-5):
             v.violation("Umis(U,U,%d) does not contain 0 (min %.3g deg)" % (cs, uu.min()), desc)
+        # the very same array object for both arguments is the same question as two equal arrays: angle k is the angle of operator k
+        uc = np.asarray(symmetry.Umis(U1, U1.copy(), cs))[:, 1]
+        if uu.shape != uc.shape or np.abs(np.cos(np.radians(uu)) - np.cos(np.radians(uc))).max() > 1e-9:
+            v.violation("Umis(U, U, %d) with one array object passed twice differs from Umis(U, copy of U, %d): %s vs %s" %
+                        (cs, cs, np.round(uu, 6).tolist()[:6], np.round(uc, 6).tolist()[:6]), desc)
     # misorientations of 1e-3 .. 1e-6 rad (sub-grain boundaries, the refinement noise of one grain): U2 = U1.d with d a Cayley rotation
     # p/q, |p|/q = 5e-4 .. 5e-7 - too fine for 32-bit numerators, so the expected angles are evaluated in floating point from the
     # exact operator tables of the model: angle_k of d.R_k', small angles through the antisymmetric part (no arccos near 1)
